@@ -311,6 +311,12 @@ def statements() -> list[tuple[str, Any]]:
     st('fn: number -> boolean', lambda p: p.fns.append(lambda b: b['spec'].__setitem__('x', True) if isinstance(b.get('spec'), dict) and b['spec'].get('x') == 1 else None))
     st('fn: append finalizer', lambda p: p.fns.append(lambda b: b.setdefault('metadata', {}).setdefault('finalizers', []).append('x/y')))
     st('fn: drop spec.x', lambda p: p.fns.append(lambda b: b.get('spec', {}).pop('x', None) if isinstance(b.get('spec'), dict) else None))
+    # values that RELOCATE: a field renamed (the new key set to the old key's value, the old key deleted), a list put into another order
+    st('set spec.moved to the value of spec.m', lambda p: p.spec.__setitem__('moved', {'k': 'v'}))
+    st('delete spec.m', lambda p: p.spec.__setitem__('m', None))
+    st('set spec.y to the value of spec.x', lambda p: p.spec.__setitem__('y', 1))
+    st('fn: reverse spec.steps', lambda p: p.fns.append(lambda b: b['spec'].__setitem__('steps', list(reversed(b['spec']['steps']))) if isinstance(b.get('spec'), dict) and isinstance(b['spec'].get('steps'), list) else None))
+    st('fn: rotate spec.steps', lambda p: p.fns.append(lambda b: b['spec'].__setitem__('steps', b['spec']['steps'][1:] + b['spec']['steps'][:1]) if isinstance(b.get('spec'), dict) and isinstance(b['spec'].get('steps'), list) else None))
     # one function object requested twice (a shared helper used by two code paths of a handler): two requests, two applications
     st('fn: same counter function twice', lambda p: (p.fns.append(_bump), p.fns.append(_bump)))
     return S
@@ -319,7 +325,7 @@ def statements() -> list[tuple[str, Any]]:
 def objects() -> list[dict]:
     meta = {'name': 'a', 'namespace': 'ns', 'uid': 'u1'}
     return [
-        {'apiVersion': 'kopf.dev/v1', 'kind': 'KopfExample', 'metadata': dict(meta), 'spec': {'x': 1, 'm': {'k': 'v'}, 'l': [1], 'b': False}},
+        {'apiVersion': 'kopf.dev/v1', 'kind': 'KopfExample', 'metadata': dict(meta), 'spec': {'x': 1, 'm': {'k': 'v'}, 'l': [1], 'b': False, 'steps': ['a', 'b', {'c': 1}]}},
         {'apiVersion': 'kopf.dev/v1', 'kind': 'KopfExample', 'metadata': dict(meta, annotations={'keep': 'me'}, finalizers=['a/b'])},
         {'apiVersion': 'kopf.dev/v1', 'kind': 'KopfExample', 'metadata': dict(meta), 'spec': {'x': {'k': 'old'}, 'm': 'scalar', 'l': {}}, 'status': {}},
     ]
